@@ -12,7 +12,7 @@ Mirrors, statement by statement,
 * `task.py:32-84`       the decorator hook (`pytask_collect_file` of task.py)       → `decoratorReports`
 * `task_utils.py:220-378` `parse_collected_tasks_with_task_marker`, `_generate_ids_for_tasks`,
   `_arg_value_to_id_component`                                                     → `parseCollected`, `genLoop`, `argToIdComponent`
-* `collect.py:64-91,94-107,156-180,594-628` `pytask_collect`, left-overs, exit code → `collect`
+* `collect.py:64-92,94-107,157-216` `pytask_collect`, left-overs, duplicate-signature pass, exit code → `collect`
 * `collect.py:551-590`  shortest unique names                                      → `shortNames`
 
 Data read from the source by the translator (`harness/extract_collect.py`) is consumed through
@@ -509,13 +509,16 @@ def contribution (w : World) (parsed : List (String × ObjId)) (name : String) :
 /-- `collected_tasks.update(...)` / `collected_tasks[name] = ...`. -/
 def dictUpdate (d : Dict) (c : Dict) : Dict := c.foldl (fun d e => dictSet d e.1 e.2) d
 
+/-- `clashing_names = collected_tasks.keys() & names_to_functions.keys()` is non-empty (fix 2ddbdf4, F8a). -/
+def clashes (d c : Dict) : Bool := c.any (fun e => d.any (fun x => x.1 == e.1))
+
 def parseStep (w : World) (parsed : List (String × ObjId)) (acc : Option Dict) (name : String) : Option Dict :=
   match acc with
   | none => none
   | some d =>
     match contribution w parsed name with
     | none => none
-    | some c => some (dictUpdate d c)
+    | some c => if Generated.parseClashCheck && clashes d c then none else some (dictUpdate d c)
 
 /-- `parse_collected_tasks_with_task_marker`; `enum` is the iteration order of the set `all_names`. -/
 def parseCollected (enum : List String → List String) (w : World) (tasks : List ObjId) : Option Dict :=
@@ -593,9 +596,24 @@ def collectStep (env : Env) (enum : List String → List String) (st : World × 
   let r := collectFile env enum st.1 p
   (r.1, st.2 ++ r.2)
 
-def collectReports (env : Env) (enum : List String → List String) : World × List Report :=
+/-- `_fail_tasks_with_duplicated_signatures` (fix faa5f38, F8b): a successful report whose signature
+(= path and base name) was already seen becomes a failed report. -/
+def failDupsLoop : List (Path × String) → List Report → List Report
+  | _, [] => []
+  | seen, .fail :: rs => .fail :: failDupsLoop seen rs
+  | seen, .succ p b o :: rs =>
+    (if seen.contains (p, b) then Report.fail else Report.succ p b o) :: failDupsLoop ((p, b) :: seen) rs
+
+def failDups (rs : List Report) : List Report := failDupsLoop [] rs
+
+/-- the steps of `pytask_collect` before `session.tasks` is filled, as listed by the translator. -/
+def rawReports (env : Env) (enum : List String → List String) : World × List Report :=
   let r := (notIgnoredPaths env.fs env.cfg.ignored env.cfg.paths).foldl (collectStep env enum) (env.init, [])
   (r.1, r.2 ++ leftovers r.1)
+
+def collectReports (env : Env) (enum : List String → List String) : World × List Report :=
+  ((rawReports env enum).1,
+   if Generated.collectDupSignaturePass then failDups (rawReports env enum).2 else (rawReports env enum).2)
 
 /-- `pytask_collect` + the `except CollectionError` arm of `build()`. -/
 def collect (env : Env) (enum : List String → List String) : Outcome :=
